@@ -526,6 +526,93 @@ End Gen.
 """
 
 
+# ----------------------------------------------------------------------------------------------- C04 (tensor basis change)
+def _pass_of(nest, lead):
+    """for x in range(dim): for y in range(dim): self._data[<lead>, pattern] = <matrix expression>   ->  ('p1'|'p2', Gallina body)"""
+    if not (isinstance(nest, ast.For) and ast.unparse(nest.iter) == "range(dim)" and len(nest.body) == 1 and isinstance(nest.body[0], ast.For)
+            and ast.unparse(nest.body[0].iter) == "range(dim)" and len(nest.body[0].body) == 1 and isinstance(nest.body[0].body[0], ast.Assign)):
+        raise Untranslatable("transformation loop nest")
+    v1, v2 = nest.target.id, nest.body[0].target.id
+    asg = nest.body[0].body[0]
+    tgt = asg.targets[0]
+    if not (isinstance(tgt, ast.Subscript) and ast.unparse(tgt.value) == "self._data"):
+        raise Untranslatable("target %s" % ast.unparse(tgt))
+    idxs = list(tgt.slice.elts) if isinstance(tgt.slice, ast.Tuple) else [tgt.slice]
+    names = [ast.unparse(i) for i in idxs]
+    if names[:len(lead)] != lead:
+        raise Untranslatable("leading indices %r" % names)
+    pat = names[len(lead):]
+    if sorted(pat) != sorted([":", ":", v1, v2]) or len(pat) != 4:
+        raise Untranslatable("index pattern %r" % pat)
+    if pat == [":", ":", v1, v2]:
+        kind, canon, slice_fun, rowcol = "p1", {v1: "c", v2: "d"}, "(fun i j => T i j c d)", "a b"
+    elif pat == [v1, v2, ":", ":"]:
+        kind, canon, slice_fun, rowcol = "p2", {v1: "a", v2: "b"}, "(fun k l => T a b k l)", "c d"
+    else:
+        raise Untranslatable("index pattern %r" % pat)
+    tgt_text = ast.unparse(tgt)
+
+    def m(node):
+        if isinstance(node, ast.Name) and node.id in ("SS", "S1"):
+            return "S" if node.id == "SS" else "S1"
+        if isinstance(node, ast.Attribute) and node.attr == "T" and isinstance(node.value, ast.Name) and node.value.id in ("SS", "S1"):
+            return "(mT %s)" % ("S" if node.value.id == "SS" else "S1")
+        if isinstance(node, ast.Subscript) and ast.unparse(node) == tgt_text:
+            return slice_fun
+        if isinstance(node, ast.Call) and ast.unparse(node.func) == "numpy.dot" and len(node.args) == 2:
+            return "(mmul n %s %s)" % (m(node.args[0]), m(node.args[1]))
+        raise Untranslatable("transformation expression %s" % ast.unparse(node)[:80])
+    return kind, "fun a b c d => %s %s" % (m(asg.value), rowcol)
+
+
+def tensor_transforms(repo):
+    specs = [("superoperator", "/quantarhei/qm/liouvillespace/superoperator.py", "SuperOperator.transform"),
+             ("relaxationtensor", "/quantarhei/qm/liouvillespace/relaxationtensor.py", "RelaxationTensor.transform"),
+             ("tdredfield", "/quantarhei/qm/liouvillespace/tdredfieldtensor.py", "TDRedfieldRelaxationTensor.transform")]
+    defs, lems, what = [], [], []
+    for tag, path, qual in specs:
+        fn = _src_of(repo + path, qual)
+        nests = []
+
+        def walk(stmts, lead):
+            for s in stmts:
+                if isinstance(s, ast.For) and ast.unparse(s.iter) == "range(dim)":
+                    nests.append((s, list(lead)))
+                elif isinstance(s, ast.For) and isinstance(s.target, ast.Name) and s.target.id == "tt":
+                    walk(s.body, lead + ["tt"])
+                elif isinstance(s, ast.If):
+                    walk(s.body, lead)
+                    walk(s.orelse, lead)
+        walk(fn.body, [])
+        if len(nests) not in (2, 4):
+            raise Untranslatable("%s: expected one or two (pass 1, pass 2) pairs of loop nests, found %d" % (qual, len(nests)))
+        kinds = []
+        for k, (nest, lead) in enumerate(nests):
+            kind, body = _pass_of(nest, lead)
+            kinds.append(kind)
+            nm = "gen_%s_%s_%d" % (tag, kind, k)
+            defs.append("  Definition %s (n : nat) (S1 S : @mat R) (T : @tens R) : @tens R := %s.\n" % (nm, body))
+            if kind == "p1":
+                lems.append("  Lemma %s_is_model n S1 S T a b c d : %s n S1 S T a b c d = tpass1 n S1 S T a b c d.\n  Proof. symmetry. apply tpass1_as_sim. Qed.\n" % (nm, nm))
+            else:
+                lems.append("  Lemma %s_is_model n S1 S T a b c d : %s n S1 S T a b c d = tpass2 n S1 S T a b c d.\n  Proof. symmetry. apply tpass2_as_matrix. Qed.\n" % (nm, nm))
+        if kinds not in (["p1", "p2"], ["p1", "p2", "p1", "p2"]):
+            raise Untranslatable("%s: passes in the order %r (the model is pass 2 after pass 1)" % (qual, kinds))
+        what.append(qual)
+    return "".join(defs) + "\n" + "".join(lems), what
+
+
+C04_FILE = """(* GENERATED on every run by harness/translate.py from the transform() methods of SuperOperator, RelaxationTensor and
+   TDRedfieldRelaxationTensor: every loop nest of the two-pass basis change, for the 4-index and the time-dependent data *)
+From Coq Require Import ZArith List Bool Arith.
+From QV Require Import Base.Alg Base.Sums Base.Mat Base.Tens Model.C01 Proofs.Tensor Proofs.C01.
+Section Gen.
+  Context {R : StarRing}.
+%s
+End Gen.
+"""
+
+
 def static_tie(cm, chk, pid, repo):
     """generates the file for property `pid`, compiles it, records the verdict in the evidence and as a violation if broken"""
     import os
@@ -541,6 +628,10 @@ def static_tie(cm, chk, pid, repo):
             text = C01_FILE % (loopit(repo), td_convert(repo), secular_condition(repo))
             info["translated"] = ["redfieldtensor.py:_loopit", "tdredfieldtensor.py:TDRedfieldRelaxationTensor._convert_operators_2_tensor",
                                   "relaxationtensor.py:RelaxationTensor.secularize (zeroing condition)"]
+        elif pid == "C04":
+            body, what = tensor_transforms(repo)
+            text = C04_FILE % body
+            info["translated"] = [w + " (loop nests of the two passes)" for w in what]
         elif pid in ("C02", "C07"):
             text = C02_FILE % propagator_kernels(repo)
             info["translated"] = ["rdmpropagator.py:_COM", "rdmpropagator.py:_TTI", "rdmpropagator.py:_OTI"]
